@@ -231,6 +231,11 @@ func (r *blobReader) Read(buf []byte) (int, error) {
 		return n, err
 	}
 	if !r.verify {
+		if r.n > r.desc.Size {
+			// The final bytes can arrive together with io.EOF,
+			// so the early check above has not seen them.
+			return n, fmt.Errorf("blob size exceeds content length %d: %w", r.desc.Size, ociregistry.ErrSizeInvalid)
+		}
 		return n, io.EOF
 	}
 	if r.n != r.desc.Size {
